@@ -72,6 +72,7 @@ func catalogue(sc *issuer.Scenario, rng *rand.Rand) []issuer.Mut {
 	ms = append(ms, issuer.MTPFaults("mtp-", func(p *issuer.ProofJ, e *issuer.Env) **issuer.MTPJ { return &p.MTP }, sc.SMT.MTP, rng)...)
 	ms = append(ms, issuer.StateFaults(sc, rng)...)
 	ms = append(ms, issuer.DIDFaults(sc)...)
+	ms = append(ms, issuer.NearMissFaults(sc)...)
 	return ms
 }
 
